@@ -34,6 +34,25 @@ GLUE = [
     H("c07_glue_any_sll_44", "c03::glue", tier="thorough", unwind=5, timeout=5400, bounds="from_linux_sll, every byte string of length 0..=44", encodes=["SlicedPacket::from_* (SlicedPacketCursor)", "all layer constructors"]),
 ]
 
+_HDR_STUBS = ["IpHeaders::from_ipv4_slice / from_ipv6_slice, ArpPacket::from_slice (strict) and LaxPacketHeaders::add_ip, "
+              "ArpPacket::from_slice (lax) -> functions that fail immediately: the harness ASSUMES the reference walk reaches no "
+              "network layer, so they are unreachable inside the claim; unstubbed, the 9 KB IpHeaders values of the three network "
+              "arms exceed the 20 GB cap"]
+HDR = [
+    H("c07_hdr_macsec_vlan_lax", "c03::glue", unwind=4, timeout=1800, stubbing=True, stubs=_HDR_STUBS,
+      bounds="LaxPacketHeaders::from_ether_type(MACSEC): MACsec(unmodified, no SCI, symbolic short length) -> VLAN -> undecoded ether type, 0..=18 bytes; inputs whose fault (if any) is in a VLAN / MACsec tag",
+      encodes=["LaxPacketHeaders::from_ether_type (link extension loop, stop errors)"]),
+    H("c07_hdr_vlan_macsec_macsec_lax", "c03::glue", unwind=5, timeout=1800, stubbing=True, stubs=_HDR_STUBS,
+      bounds="LaxPacketHeaders::from_ether_type(VLAN): VLAN -> MACsec(symbolic short length) -> MACsec, 0..=24 bytes",
+      encodes=["LaxPacketHeaders::from_ether_type (link extension loop, stop errors)"]),
+    H("c07_hdr_macsec_vlan", "c03::glue", unwind=4, timeout=2400, stubbing=True, stubs=_HDR_STUBS,
+      bounds="PacketHeaders::from_ether_type(MACSEC): MACsec(unmodified, no SCI, symbolic short length) -> VLAN -> undecoded ether type, 0..=18 bytes",
+      encodes=["PacketHeaders::from_ether_type (link extension loop, errors)"]),
+    H("c07_hdr_vlan_macsec_macsec", "c03::glue", tier="thorough", unwind=5, timeout=3600, stubbing=True, stubs=_HDR_STUBS,
+      bounds="PacketHeaders::from_ether_type(VLAN): VLAN -> MACsec(symbolic short length) -> MACsec, 0..=24 bytes",
+      encodes=["PacketHeaders::from_ether_type (link extension loop, errors)"]),
+]
+
 PROP = {
     "max_jobs": 8,  # parallel CBMC jobs (memory profile of these harnesses)
     "claim": "for every rejected input of each layer constructor the error names an admissible layer for the layer "
@@ -41,7 +60,7 @@ PROP = {
              "under-claiming length field), required_len is a size that layer legitimately demands with the right "
              "ordering against len, a length source other than Slice is the one that really limited the data, and "
              "content errors carry the value present in the bytes",
-    "outside": "inputs longer than the per-harness bound",
+    "outside": "inputs longer than the per-harness bound; errors of PacketHeaders / LaxPacketHeaders raised at or behind the network layer are tied to the slice family by the C04 harnesses (IPv4 / ARP skeletons only)",
     "assumptions": ["the reference decoder kani/src/refm.rs is correct (validated natively by kani/src/bin/selfcheck.rs)"],
-    "harnesses": PER_LAYER + GLUE,
+    "harnesses": PER_LAYER + GLUE + HDR,
 }
